@@ -465,3 +465,145 @@ def impl_check(rep, prop, tier):
         else:
             rep.count('llvm_both_refuse')
     return done
+
+
+# ---------------------------------------------------------------------------------------------
+# whole programs: bytes and label table vs LLVM (no compression, no relaxation)
+# ---------------------------------------------------------------------------------------------
+
+def to_llvm_program(lines):
+    """translate generated lines (progs.Ln) to LLVM assembly; returns (text, kept lines) or None if a line has no
+    faithful LLVM spelling.  call / tail / li are left out (LLVM expands them differently by design); sizes are
+    tracked so that `align` becomes explicit zero bytes (llvm-mc 14 cannot pad code by one byte)."""
+    from harness import oracle
+    R = lambda n: 'x%d' % n
+    out = []
+    kept = []
+    pos = 0
+    for ln in lines:
+        k = ln.kind
+        if k == 'label':
+            out.append('%s:' % ln.name)
+        elif k == 'instr':
+            t = llvm_syntax(ln.name, ln.ops)
+            if t is None:
+                return None
+            out.append('    ' + t)
+            pos += 4
+        elif k == 'branch':
+            out.append('    %s %s, %s, %s' % (ln.name, R(ln.ops[0]), R(ln.ops[1]), ln.label)); pos += 4
+        elif k == 'jal':
+            out.append('    jal %s, %s' % (R(ln.ops[0]), ln.label)); pos += 4
+        elif k == 'pbranch1':
+            out.append('    %s %s, %s' % (ln.name, R(ln.ops[0]), ln.label)); pos += 4
+        elif k == 'pbranch2':
+            out.append('    %s %s, %s, %s' % (ln.name, R(ln.ops[0]), R(ln.ops[1]), ln.label)); pos += 4
+        elif k == 'pjump':
+            if ln.name in ('call', 'tail'):
+                continue
+            out.append('    %s %s' % (ln.name, ln.label)); pos += 4
+        elif k == 'li':
+            continue
+        elif k == 'unary':
+            out.append('    %s %s, %s' % (ln.name, R(ln.ops[0]), R(ln.ops[1]))); pos += 4
+        elif k == 'pjr':
+            out.append('    %s %s' % (ln.name, R(ln.ops[0]))); pos += 4
+        elif k == 'p0':
+            out.append('    ' + ln.name); pos += 4
+        elif k == 'seq':
+            d = {'bytes': ('.byte', 1), 'shorts': ('.half', 2), 'ints': ('.word', 4), 'longs': ('.word', 4), 'longlongs': ('.dword', 8)}[ln.name]
+            out.append('    %s %s' % (d[0], ', '.join(str(v) for v in ln.ops))); pos += d[1] * len(ln.ops)
+        elif k == 'short':
+            d = {'dh': ('.half', 2), 'dw': ('.word', 4), 'dd': ('.dword', 8), 'db': ('.byte', 1)}[ln.name]
+            out.append('    %s %d' % (d[0], ln.ops[0])); pos += d[1]
+        elif k == 'pack':
+            w = {'h': 2, 'i': 4, 'l': 4, 'q': 8}[ln.name[1].lower()]
+            bs = (ln.ops[0] % (1 << (8 * w))).to_bytes(w, 'little' if ln.name[0] == '<' else 'big')
+            out.append('    .byte ' + ', '.join(str(b) for b in bs)); pos += w
+        elif k == 'string':
+            bs = oracle.unescape(ln.ops[0])
+            out.append('    .byte ' + ', '.join(str(b) for b in bs)); pos += len(bs)
+        elif k == 'align':
+            n = ln.ops[0]
+            pad = (-pos) % n
+            if pad:
+                out.append('    .zero %d' % pad)
+            pos += pad
+        else:
+            return None
+        kept.append(ln)
+    return '\n'.join(out) + '\n', kept
+
+
+def _prog_case(args):
+    import os
+    import tempfile
+    import shutil as sh
+    from harness import progs
+    seedv, idx = args
+    os.environ['VERIF_SEED'] = str(seedv)
+    rnd = common.rng('llvmx-prog:%d' % idx)
+    asm = progs.get_asm()
+    lines = progs.gen_program(rnd, size=rnd.randrange(6, 40), consts=False, aligns=rnd.random() < 0.5, fillers=rnd.random() < 0.5)
+    lines = [l for l in lines if not (l.kind == 'align' and l.ops[0] > 64)]
+    tr = to_llvm_program(lines)
+    if tr is None:
+        return dict(idx=idx, status='untranslatable')
+    text, kept = tr
+    src = progs.source(kept)
+    res = progs.assemble_chunks(asm, src, False)
+    d = tempfile.mkdtemp(prefix='bbllvm-')
+    try:
+        open(os.path.join(d, 't.s'), 'w').write(text)
+        p = subprocess.run([LLVM_MC, '-triple=riscv32', '-mattr=+m,+a', '-filetype=obj', '-o', os.path.join(d, 't.o'), os.path.join(d, 't.s')],
+                           capture_output=True, text=True, timeout=120)
+        if p.returncode != 0:
+            return dict(idx=idx, status='llvm-refused' if res.status != 'ok' else 'llvm-refused-we-accept', src=src,
+                        err=p.stderr.strip().split('\n')[0][:200])
+        if res.status != 'ok':
+            return dict(idx=idx, status='we-refuse-llvm-accepts', src=src, err=str(res.exc)[:200])
+        objcopy = LLVM_MC.replace('llvm-mc', 'llvm-objcopy')
+        nm = LLVM_MC.replace('llvm-mc', 'llvm-nm')
+        subprocess.run([objcopy, '-O', 'binary', '--only-section=.text', os.path.join(d, 't.o'), os.path.join(d, 't.bin')], check=True, timeout=120)
+        theirs = open(os.path.join(d, 't.bin'), 'rb').read() if os.path.exists(os.path.join(d, 't.bin')) else b''
+        syms = {}
+        q = subprocess.run([nm, os.path.join(d, 't.o')], capture_output=True, text=True, timeout=120)
+        for l in q.stdout.split('\n'):
+            t = l.split()
+            if len(t) == 3:
+                syms[t[2]] = int(t[0], 16)
+        out = dict(idx=idx, status='compared', src=src, llvm_src=text, problems=[])
+        if bytes(res.bytes) != theirs:
+            n = next((i for i in range(min(len(theirs), len(res.bytes))) if theirs[i] != res.bytes[i]), min(len(theirs), len(res.bytes)))
+            out['problems'].append('bytes differ from LLVM\'s at offset %d: ours %s, LLVM %s (lengths %d / %d)' % (
+                n, bytes(res.bytes)[n:n + 8].hex(), theirs[n:n + 8].hex(), len(res.bytes), len(theirs)))
+        for name, v in res.labels.items():
+            if name in syms and syms[name] != v:
+                out['problems'].append('label %s is at %d for us and at %d for LLVM' % (name, v, syms[name]))
+        return out
+    finally:
+        sh.rmtree(d, ignore_errors=True)
+
+
+def program_check(rep, prop, tier):
+    """generated programs (literal instructions, branches / jal / j and pseudo-branches to labels, data, strings,
+    aligns as explicit padding) assembled by bronzebeard without -c and by llvm-mc: bytes and label addresses equal"""
+    if not available() or not shutil.which(LLVM_MC.replace('llvm-mc', 'llvm-objcopy')):
+        rep.count('llvm_program_check_skipped_no_llvm')
+        return 0
+    import multiprocessing as mp
+    import os
+    n = 150 if tier == 'quick' else 3000
+    ctx = mp.get_context('fork')
+    with ctx.Pool(min(16, os.cpu_count() or 4)) as pool:
+        results = pool.map(_prog_case, [(common.seed(), i) for i in range(n)], chunksize=4)
+    done = 0
+    for r in results:
+        rep.count('llvm_program_' + r['status'])
+        if r['status'] != 'compared':
+            continue
+        done += 1
+        rep.evaluations += 1
+        for msg in r['problems']:
+            rep.violation('%s: %s' % (prop, msg), dict(case=dict(program=r['src'], llvm_program=r['llvm_src'], problem=msg)))
+    return done
